@@ -328,6 +328,9 @@ def judge(rep, item, mrun, cmo):
         rep.count('patched_threshold_runs')
     if scn.get('_gc_schedule'):
         rep.count('gc_scheduled_runs')
+    if mp.get('_watchdog_extensions'):
+        # slower than the nominal per-case limit but alive: the watchdog let it finish
+        rep.count('runs_beyond_nominal_limit_but_alive')
     if scn.get('_sleep_scale'):
         rep.count('deep_queue_runs')
         rep.count('deep_queue_full_events', mp.get('qfull', 0))
@@ -337,7 +340,8 @@ def judge(rep, item, mrun, cmo):
         if 'err' in mp and mp['err'] in errs_alone:
             return
         rep.fail('failing-input', scn,
-                 f"multi-process run: {mp.get('err', 'returned')}; files alone: "
+                 f"multi-process run: {mp.get('err', 'returned')}"
+                 f"{' [' + mp['_watchdog'] + ']' if mp.get('_watchdog') else ''}; files alone: "
                  f"{errs_alone or 'all returned'}", impl=mp.get('err'), spec=errs_alone)
         return
     for name, single in alone.items():
@@ -415,5 +419,9 @@ def run(tier, seed, replay_case=None):
         judge(rep, it, mr, cm)
     rep.assumptions = ["the manager queue is FIFO per producer and a put that returned is "
                        "visible to the consumer", "OS scheduling is sampled, not enumerated; "
-                       "the model covers every schedule"]
+                       "the model covers every schedule",
+                       "how long a run takes is not judged: a run counts as hung only when, "
+                       "past the nominal per-case limit, it shows no sign of life (no batch "
+                       "collected, < 5 % of a core used by the process tree) for a quarter of "
+                       "the limit, or reaches the CPU / wall-clock backstops of core.time_limit"]
     return rep.finish(aud, RULE)
